@@ -53,6 +53,16 @@ func c28Body(p c28Params) func() {
 		e := startServer(ctx, nodes)
 		c := connect(ctx)
 		c2 := connect(ctx)
+		// a second monitor (another client) subscribes first, so that the server's monitored item ids
+		// and this monitor's client handles do not coincide
+		m2, err := monitor.NewNodeMonitor(c2)
+		if err != nil {
+			panic(err)
+		}
+		if _, err := m2.Subscribe(ctx, &opcua.SubscriptionParameters{Interval: 100 * time.Millisecond, MaxKeepAliveCount: 10, LifetimeCount: 1000},
+			func(*monitor.Subscription, *monitor.DataChangeMessage) {}, e.nodeID(2).String(), e.nodeID(1).String()); err != nil {
+			panic(err)
+		}
 		m, err := monitor.NewNodeMonitor(c)
 		if err != nil {
 			panic(err)
